@@ -237,6 +237,10 @@ func (d *PathDecoder) nameTokenRangeAtPos(filename string, pos hcl.Pos) (hcl.Ran
 
 func nameTokenRangeAtPos(tokens hclsyntax.Tokens, pos hcl.Pos) (hcl.Range, error) {
 	for i, t := range tokens {
+		// position right behind an identifier (possibly followed by whitespace)
+		if t.Type == hclsyntax.TokenIdent && t.Range.End.Byte == pos.Byte {
+			return t.Range, nil
+		}
 		if t.Range.ContainsPos(pos) {
 			if t.Type == hclsyntax.TokenIdent {
 				return t.Range, nil
